@@ -157,3 +157,55 @@ def a_to_b_to_c(q, v, a, b, c):
 
 def a_to_c(q, v, a, c):
     return q.from_raw(q.to_raw(v, a), c)
+
+
+# ---------------------------------------------------------------------------------------
+# C17 / C19 helpers
+from py_ballisticcalc.unit import PreferredUnits  # noqa: E402
+from pyvc.rt import is_quantity, raw  # noqa: E402
+
+
+def celsius_of_raw_f(f):
+    """temperature magnitudes are stored in Fahrenheit"""
+    return (f - 32) * 5 / 9
+
+
+def celsius_of_arg(t):
+    """Celsius reading of a temperature argument: a quantity, or a bare number read in the
+    currently preferred temperature unit"""
+    if is_quantity(t):
+        return celsius_of_raw_f(raw(t))
+    return kelvin_of(t, PreferredUnits.temperature) - ZERO_C
+
+
+def mps_of_arg(v):
+    if is_quantity(v):
+        return raw(v)
+    return v * SI_FACTOR[PreferredUnits.velocity]
+
+
+def inch_of_arg(d):
+    if is_quantity(d):
+        return raw(d)
+    return d * SI_FACTOR[PreferredUnits.distance] / INCH
+
+
+def velocity_at(v0, t0, modifier, t):
+    """the statement's linear law: equals the stated velocity v0 at the stated powder temperature
+    t0 and changes by modifier x v0 per 15 C"""
+    return v0 + modifier * (v0 / 15) * (t - t0)
+
+
+def effective_click(focal_plane, nominal_raw, unit, scale_inch, target_inch, magnification):
+    """the statement's effective click size: nominal for first focal plane; nominal / magnification
+    for LWIR; nominal x (calibration distance / target distance) x magnification for second focal
+    plane - of the angle for the linear angular units, of the subtension (tangent) for the two
+    tangent-defined units, as those units are defined"""
+    if focal_plane == 'FFP':
+        return nominal_raw
+    if focal_plane == 'LWIR':
+        return nominal_raw / magnification
+    k = scale_inch / target_inch * magnification
+    if unit in TANGENT_RUN:
+        return math.atan(math.tan(nominal_raw) * k)
+    return nominal_raw * k
